@@ -1,0 +1,26 @@
+//go:build verif
+
+// Machine-checked contracts for package signers (comment-only; see /verif/DESIGN.md).
+
+package signers
+
+//@ func (fileProducer).Apply
+//@   property C13
+//@   ghost open bool = false
+//@   ghost committed bool = false
+//@   ghost copyFailed bool = false
+//@   on call atomicfile.WriteAny(_) ret (f, e): open = (e == nil)
+//@   on call io.Copy(_, _) ret (n, e): copyFailed = (e != nil)
+//@   on call invoke atomicfile.AtomicFile.Commit(_) ret (e): committed = (e == nil); open = open && e != nil; \
+//@        assert @commit_only_after_complete_copy !copyFailed
+//@   on call invoke atomicfile.AtomicFile.Close(_) ret (e): open = false
+//@   ensures @no_temp_file_left_on_error mimetype != binpatch.MimeType && ret0 != nil ==> !open
+//@   ensures @success_means_committed mimetype != binpatch.MimeType && ret0 == nil ==> committed
+//@
+//@ func ApplyBinPatch
+//@   property C13 C12
+//@   ghost loadFailed bool = false
+//@   ghost applied bool = false
+//@   on call binpatch.Load(_) ret (p, e): loadFailed = (e != nil)
+//@   on call (*binpatch.PatchSet).Apply(_, _, _) ret (e): applied = true; assert @unparsable_patch_never_applied !loadFailed
+//@   ensures @load_error_reported loadFailed ==> ret0 != nil && !applied
